@@ -31,10 +31,11 @@ K = {
     "lead_crlf": b"\r\nGET / HTTP/1.1\r\n\r\n",
     "pipe3": b"GET /1 HTTP/1.1\r\n\r\nGET /2 HTTP/1.1\r\n\r\nGET /3 HTTP/1.1\r\n\r\n",
     "dup_host": b"GET / HTTP/1.1\r\nHost: a\r\nHost: b\r\n\r\n",
+    "chunk_pipe": b"POST / HTTP/1.1\r\n" + CH + b"\r\n2\r\nab\r\n0\r\n\r\nGET /2 HTTP/1.1\r\n\r\n",
     "chunk_bigsize": b"POST / HTTP/1.1\r\n" + CH + b"\r\n00A\r\n0123456789\r\n0\r\n\r\n",
 }
 # skeletons whose parsing carries state across reads (used by the quick tier of C02)
-CARRY = ("cl_pipe", "chunk1", "chunk_ext_tr", "cl_te", "te10_ka", "pipe3", "lead_crlf", "obsfold", "chunk_bigsize")
+CARRY = ("cl_pipe", "chunk1", "chunk_pipe", "chunk_ext_tr", "cl_te", "te10_ka", "pipe3", "lead_crlf", "obsfold", "chunk_bigsize")
 
 
 def window_positions(sk, w, mode):
